@@ -29,7 +29,7 @@ def modules_of_props():
         for q in ctx.analysed_functions:
             mods.add(q.split(".")[0])
         for i in ctx.instances:
-            m = re.match(r"sparseSpACE/(\\w+)\\.py", i.loc or "")
+            m = re.match(r"sparseSpACE/(\w+)\.py", i.loc or "")
             if m:
                 mods.add(m.group(1))
         out[p] = mods
@@ -51,7 +51,7 @@ def main():
                 print("%-14s NOT filed: %s" % (sid, err or sorted(hits)))
                 rc = 1
                 continue
-            files = set(re.findall(r"^\\+\\+\\+ b/sparseSpACE/(\\w+)\\.py", open(path).read(), re.M))
+            files = set(re.findall(r"^\+\+\+ b/sparseSpACE/(\w+)\.py", open(path).read(), re.M))
             props = sorted(p for p, ms in mods.items() if ms & files)
             own = d[1:] if d.startswith("R") else d
             if own in available() and own not in props:
